@@ -156,7 +156,8 @@ CHECKS = {
                 "partition of the walk's keyed atoms for every run of well-formed records; a decimal numeral in a field is read as the value the "
                 "specification gives its text. DBREF / SEQADV / MODRES records are part of the specification (annotation of the first model that has "
                 "the chain, names and insertion codes compared in their stored case); the MODRES pass of the reader model is proved equal to the "
-                "specification's step on every structure (Proofs/C01annot.v).",
+                "specification's step on every structure (Proofs/C01annot.v), and the simulation is carried across MODEL / ENDMDL records: the "
+                "models the reader model has built are the models of the specification walk for every well-formed record sequence (Proofs/C01models.v).",
         "design_ref": "DESIGN.md section 6 C01",
         "note": "Partial: the refinement read_pdb (render recs) = denote recs is checked by correspondence, not proved; SSBOND is "
                 "covered by the reader-model correspondence only (DBREF / SEQADV are specified and compared, not proved); SEQRES validation is not modelled. Trusted: Coq kernel, T2 table translators, the "
